@@ -1,5 +1,6 @@
 """C18: acyclic_unroll removes cycles and preserves stable states (+ the C05 clause for acyclic arguments)."""
 import json
+import os
 
 import lib
 from lib import cs, csl, ccirc
@@ -69,6 +70,7 @@ def stress_names(rng, d):
 
 def generate(rng, tier):
     n = 170 if tier == "quick" else 600
+    n = max(20, int(n * float(os.environ.get("VERIF_SCALE", "1"))))      # <1 only for mutant trials on a loaded machine
     out = []
     for i in range(n):
         r = rng.random()
